@@ -568,7 +568,7 @@ func main() {
 			c.Cases("traced", n, 1, func(k *vf.Case) { runCase(k, true) })
 			rtrace.Stop()
 		}
-		c.Floor("stack_traces_checked", 1000)
+		c.Floor("stack_traces_checked", 250)
 		c.Floor("untraced_cases_with_overlapping_ends", 1000)
 		c.Floor("traced_cases_with_overlapping_ends", 1000)
 		c.Floor("untraced_cases_with_children_before_end", 100)
